@@ -151,6 +151,13 @@ def routes(pendulum, z, inst):
     a = base.subtract(hours=3).add(hours=3)
     if obs.instant_us(a) == inst:
         out.append(("arithmetic", a))
+    # the same value carrying a tzinfo that is not a pendulum timezone (raw constructor / fromisoformat / astimezone(<foreign>))
+    import zoneinfo
+    import datetime as dt_
+    fz = dt_.timezone(dt_.timedelta(seconds=z)) if isinstance(z, int) else zoneinfo.ZoneInfo(z)
+    fx = pendulum.DateTime(*f, tzinfo=fz, fold=base.fold)
+    if obs.instant_us(fx) == inst:
+        out.append(("foreign-tzinfo", fx))
     return out
 
 
@@ -209,8 +216,9 @@ def check_state(acc, pendulum, z, inst, units=UNITS, ws=0):
                         break      # one non-terminating route per (state, unit) is enough: each costs a horizon
                     continue
                 problems = []
-                if type(r) is not pendulum.DateTime or r.timezone_name != x.timezone_name:
-                    problems.append(("zone-or-type", [type(r).__name__, r.timezone_name], ["DateTime", x.timezone_name]))
+                want_name = x.timezone_name if (z is None or x.timezone_name) else _tz(pendulum, z).name        # a foreign tzinfo's zone is kept as its pendulum equivalent
+                if type(r) is not pendulum.DateTime or r.timezone_name != want_name:
+                    problems.append(("zone-or-type", [type(r).__name__, r.timezone_name], ["DateTime", want_name]))
                 if not _canon(z, r):
                     problems.append(("not-a-valid-local-time", [obs.fields(r), obs.offset_s(r)], "canonical rendering"))
                 ri = obs.instant_us(r)
